@@ -230,10 +230,10 @@ func checkBook(c *fw.Ctx, name string, bk engine.Book, p ref.Pos) {
 
 func init() {
 	fw.Register(&fw.Monitor{
-		ID:        "C20",
-		Level:     "exploration",
-		Technique: "runtime oracle over generated positions with short histories: finiteness and colour-mirror symmetry of evaluations, move filters vs the independent legal-move set, book replies vs the legal-move set over the enumerated opening tree",
-		Rule: "positions with histories (playouts from curated and synthetic starts, tactical shapes, sparse endings) x branch limits {1,3,7,0} x material factors {0,1,20,1000,-1}: evaluations finite; Material/TUROCHAMP/BERNSTEIN equal on the colour-mirrored game; plausible-move / no-under-promotion / considerable-move filters vs the oracle's legal set; books: every position of the game tree to depth 3 from the initial position (9323 positions) looked up in the SARGON, BERNSTEIN and generated line books; distinct = distinct (position, history length) + distinct book hits",
+		ID:          "C20",
+		Level:       "exploration",
+		Technique:   "runtime oracle over generated positions with short histories: finiteness and colour-mirror symmetry of evaluations, move filters vs the independent legal-move set, book replies vs the legal-move set over the enumerated opening tree",
+		Rule:        "positions with histories (playouts from curated and synthetic starts, tactical shapes, sparse endings) x branch limits {1,3,7,0} x material factors {0,1,20,1000,-1}: evaluations finite; Material/TUROCHAMP/BERNSTEIN equal on the colour-mirrored game; plausible-move / no-under-promotion / considerable-move filters vs the oracle's legal set; books: every position of the game tree to depth 3 from the initial position (9323 positions) looked up in the SARGON, BERNSTEIN and generated line books; distinct = distinct (position, history length) + distinct book hits",
 		Assumptions: []string{"reference rules implementation (package ref)", "SARGON's evaluation is anchored to the root side by design: only totality is checked for it"},
 		Setup:       validateOracle,
 		Timeout:     minutes(10, 60),
